@@ -198,7 +198,14 @@ impl Interp for C03 {
             }
             "len" => format!("{}:{}", csm.len(), csm.is_empty() as u8),
             "evals" => {
-                let r = csm.eval_single_state(p(a[0]), p::<i64>(a[1]) as f64);
+                // special values: the causal functions see them as `obs as i64` (NaN -> 0, ±inf saturate)
+                let d = match a[1] {
+                    "nan" => f64::NAN,
+                    "inf" => f64::INFINITY,
+                    "-inf" => f64::NEG_INFINITY,
+                    x => p::<i64>(x) as f64,
+                };
+                let r = csm.eval_single_state(p(a[0]), d);
                 format!("{};{}", st(r.is_ok()), Self::take_log())
             }
             "evalall" => {
